@@ -178,10 +178,9 @@ theorem nextFire_eq (f : Fields) (z : Zone) (prev : Int) (hp : 0 ≤ prev) :
       zoneLoop {} f z (prev / 1000000000) (z.offsetAt (prev / 1000000000))
         ((((((3940 * 13 + 12) * 32 + 31) * 24 + 23) * 60 + 59) * 60 + 59) + 1)
         (Civil.ofSeconds (prev / 1000000000 + z.offsetAt (prev / 1000000000))) := by
-  have htd : Int.tdiv prev 1000000000 = prev / 1000000000 := Int.tdiv_eq_ediv_of_nonneg hp
-  show zoneLoop {} f z (Int.tdiv prev 1000000000) (z.offsetAt (Int.tdiv prev 1000000000)) csmFuel
-    (Civil.ofSeconds (Int.tdiv prev 1000000000 + z.offsetAt (Int.tdiv prev 1000000000))) = _
-  rw [htd, csmFuel_eq]
+  show zoneLoop {} f z (prev / 1000000000) (z.offsetAt (prev / 1000000000)) csmFuel
+    (Civil.ofSeconds (prev / 1000000000 + z.offsetAt (prev / 1000000000))) = _
+  rw [csmFuel_eq]
 
 theorem nextFire_zone_ne_outOfFuel (f : Fields) (hwf : WellFormed f = true) (z : Zone) (prev : Int)
     (hp : 0 ≤ prev) (hz : ∀ u, -100000 ≤ z.offsetAt u ∧ z.offsetAt u ≤ 100000) :
